@@ -418,7 +418,18 @@ func (c *FnVC) invEval(li *loopInfo, phis map[*ssa.Phi]string, heap HeapState) *
 			}
 		}
 		var best *ssa.DebugRef
+		// an address-taken local lives in memory: its value is whatever the heap holds,
+		// never a stale SSA load
+		addrTaken := false
 		for _, r := range refs {
+			if r.IsAddr {
+				addrTaken = true
+			}
+		}
+		for _, r := range refs {
+			if addrTaken && !r.IsAddr {
+				continue
+			}
 			if r.IsAddr {
 				// address-taken local: value lives in the heap
 				if r.Block().Dominates(li.header) || r.Block() == li.header {
